@@ -1,0 +1,103 @@
+//go:build verif
+
+// Machine-checked contracts for package json (see /verif/DESIGN.md). This
+// file contains comments only; it is compiled only with the "verif" build
+// tag and changes nothing in the package.
+
+package json
+
+// verif:unit U3 props=C13,C14,C15
+
+// verif:pred isJSONWS(b int) = b == 32 || b == 10 || b == 13 || b == 9
+// verif:pred isNumByte(b int) = b == '-' || b == '+' || b == '.' || b == 'e' || b == 'E' || ('0' <= b && b <= '9')
+// verif:pred isAlpha(b int) = ('a' <= b && b <= 'z') || ('A' <= b && b <= 'Z')
+
+// verif:func isAlphabetical
+//@ pure
+//@ ensures ret == isAlpha(b)
+
+// verif:func byteCanStartNumber
+//@ pure
+//@ ensures ret == (b == '-' || b == '+' || b == '.' || ('0' <= b && b <= '9'))
+
+// verif:func byteCanStartKeyword
+//@ pure
+//@ ensures ret == isAlpha(b)
+
+// verif:func posRange
+//@ pure
+//@ ensures ret.Filename == start.Filename && ret.Start == start.Pos && ret.End == end.Pos
+
+// verif:func (*pos).Range
+//@ pure
+//@ ensures ret.Filename == p.Filename && ret.Start == p.Pos
+//@ ensures ret.End.Line == p.Pos.Line && ret.End.Column == p.Pos.Column + charLen && ret.End.Byte == p.Pos.Byte + byteLen
+
+// verif:func skipWhitespace
+//@ pure
+//@ results rest, p
+//@ ensures sub: arr(rest) == arr(buf) && off(rest) + len(rest) == off(buf) + len(buf) && off(buf) <= off(rest)
+//@ ensures ws: forall k int :: 0 <= k && k < len(buf) - len(rest) ==> isJSONWS(buf[k])
+//@ ensures maximal: len(rest) > 0 ==> !isJSONWS(rest[0])
+//@ ensures byte: p.Pos.Byte == start.Pos.Byte + (len(buf) - len(rest)) && p.Filename == start.Filename
+//@ ensures line: p.Pos.Line >= start.Pos.Line
+//@ loop 1 invariant 0 <= i && i <= len(buf)
+//@ loop 1 invariant forall k int :: 0 <= k && k < i ==> isJSONWS(buf[k])
+//@ loop 1 invariant p.Pos.Byte == start.Pos.Byte + i && p.Filename == start.Filename && p.Pos.Line >= start.Pos.Line
+//@ loop 1 decreases len(buf) - i
+
+// verif:func scanNumber
+//@ pure
+//@ results tok, rest, p
+//@ ensures split: tok === buf[:len(tok)] && rest === buf[len(tok):] && len(tok) <= len(buf)
+//@ ensures class: forall k int :: 0 <= k && k < len(tok) ==> isNumByte(buf[k])
+//@ ensures maximal: len(rest) > 0 ==> !isNumByte(rest[0])
+//@ ensures pos: p.Pos.Byte == start.Pos.Byte + len(tok) && p.Pos.Column == start.Pos.Column + len(tok) && p.Pos.Line == start.Pos.Line && p.Filename == start.Filename
+//@ loop 1 invariant 0 <= i && i <= len(buf)
+//@ loop 1 invariant forall k int :: 0 <= k && k < i ==> isNumByte(buf[k])
+//@ loop 1 invariant p.Pos.Byte == start.Pos.Byte + i && p.Pos.Column == start.Pos.Column + i && p.Pos.Line == start.Pos.Line && p.Filename == start.Filename
+//@ loop 1 decreases len(buf) - i
+
+// verif:func scanKeyword
+//@ pure
+//@ results tok, rest, p
+//@ ensures split: tok === buf[:len(tok)] && rest === buf[len(tok):] && len(tok) <= len(buf)
+//@ ensures class: forall k int :: 0 <= k && k < len(tok) ==> (isAlpha(buf[k]) || buf[k] == '_')
+//@ ensures maximal: len(rest) > 0 ==> !(isAlpha(rest[0]) || rest[0] == '_')
+//@ ensures pos: p.Pos.Byte == start.Pos.Byte + len(tok) && p.Pos.Column == start.Pos.Column + len(tok) && p.Pos.Line == start.Pos.Line && p.Filename == start.Filename
+//@ loop 1 invariant 0 <= i && i <= len(buf)
+//@ loop 1 invariant forall k int :: 0 <= k && k < i ==> (isAlpha(buf[k]) || buf[k] == '_')
+//@ loop 1 invariant p.Pos.Byte == start.Pos.Byte + i && p.Pos.Column == start.Pos.Column + i && p.Pos.Line == start.Pos.Line && p.Filename == start.Filename
+//@ loop 1 decreases len(buf) - i
+
+// verif:func scanString
+//@ requires len(buf) >= 1
+//@ pure
+//@ results tok, rest, p
+//@ ensures split: tok === buf[:len(tok)] && rest === buf[len(tok):] && 1 <= len(tok) && len(tok) <= len(buf)
+//@ ensures pos: p.Pos.Byte == start.Pos.Byte + len(tok) && p.Pos.Line == start.Pos.Line && p.Filename == start.Filename
+//@ ensures col: p.Pos.Column > start.Pos.Column && p.Pos.Column <= start.Pos.Column + len(tok)
+//@ ensures stop: len(rest) > 0 ==> (buf[len(tok)-1] == '"' && len(tok) >= 2) || rest[0] < 32
+//@ loop 1 invariant 1 <= i && i <= len(buf)
+//@ loop 1 invariant p.Pos.Byte == start.Pos.Byte + i && p.Pos.Line == start.Pos.Line && p.Filename == start.Filename
+//@ loop 1 invariant p.Pos.Column > start.Pos.Column && p.Pos.Column <= start.Pos.Column + i
+//@ loop 1 decreases len(buf) - i
+
+// tilesUpTo(tokens, n, arr0, off0, byte0): the first n tokens are in order, each
+// token's bytes are the source bytes of its range, and consecutive ranges do not overlap.
+// verif:pred tokOK(t token, a ref, o0 int, b0 int, fn string) = t.Range.Filename == fn && t.Range.Start.Byte <= t.Range.End.Byte && (t.Type != tokenEOF ==> arr(t.Bytes) == a && off(t.Bytes) - o0 == t.Range.Start.Byte - b0 && len(t.Bytes) == t.Range.End.Byte - t.Range.Start.Byte && len(t.Bytes) >= 1) && (t.Type == tokenEOF ==> len(t.Bytes) == 0 && t.Range.Start.Byte == t.Range.End.Byte)
+
+// verif:func scan
+//@ ensures nonempty: len(ret) >= 1
+//@ ensures lastEOF: ret[len(ret)-1].Type == tokenEOF
+//@ ensures onlyLastEOF: forall k int :: 0 <= k && k < len(ret)-1 ==> ret[k].Type != tokenEOF
+//@ ensures bytes: forall k int :: 0 <= k && k < len(ret) ==> tokOK(ret[k], arr(buf), off(buf), start.Pos.Byte, start.Filename)
+//@ ensures ordered: forall k int :: 0 <= k && k < len(ret)-1 ==> ret[k].Range.End.Byte <= ret[k+1].Range.Start.Byte
+//@ ensures inbounds: forall k int :: 0 <= k && k < len(ret) ==> start.Pos.Byte <= ret[k].Range.Start.Byte && ret[k].Range.End.Byte <= start.Pos.Byte + len(buf)
+//@ loop 1 invariant sub: arr(buf) == arr(old(buf)) && off(buf) + len(buf) == off(old(buf)) + len(old(buf)) && off(old(buf)) <= off(buf)
+//@ loop 1 invariant pos: p.Pos.Byte - old(start).Pos.Byte == off(buf) - off(old(buf)) && p.Filename == old(start).Filename
+//@ loop 1 invariant noEOF: forall k int :: 0 <= k && k < len(tokens) ==> tokens[k].Type != tokenEOF
+//@ loop 1 invariant bytes: forall k int :: 0 <= k && k < len(tokens) ==> tokOK(tokens[k], arr(old(buf)), off(old(buf)), old(start).Pos.Byte, old(start).Filename)
+//@ loop 1 invariant ordered: forall k int :: 0 <= k && k < len(tokens)-1 ==> tokens[k].Range.End.Byte <= tokens[k+1].Range.Start.Byte
+//@ loop 1 invariant inbounds: forall k int :: 0 <= k && k < len(tokens) ==> old(start).Pos.Byte <= tokens[k].Range.Start.Byte && tokens[k].Range.End.Byte <= p.Pos.Byte
+//@ loop 1 decreases len(buf)
